@@ -11,9 +11,12 @@ _blake = any(p.__name__.endswith('c13_blake') for p in PARTS)
 ID = 'C13'
 aggregate(globals(), PARTS)
 RULE = ('op lines `hmac <alg> <key> <msg>` for |K| in 0..3 blocks around digest size, block-1, block, block+1 and multiples; `hmacseq` key '
-        'sequences on one object; `hmacgen` the HMAC class over a toy hash for block sizes 8..1024 bits'
+        'sequences on one object; `hmacgen` the HMAC class over a toy hash for block sizes 8..1024 bits; `hmach <alg> | history | mac <key> <msg> | history | again <msg> | …`: '
+        'the hash object is USED (one-shot call with a ragged bit length / on the spill boundary, abandoned stream with and without a buffered rest, finished stream, refused call, '
+        'refused final piece, preset counter, update on a padded object) before HMAC(h,key), between two MACs of one HMAC object and between two HMAC objects over it, keys < = > block'
         + ('; `bhmac`/`bhmac.s`/`bhmacseq` the same grid over Blake(224/256/384/512) and the module singletons, message lengths around '
-           'BLAKE\'s padding spill' if _blake else '')
+           'BLAKE\'s padding spill; `bhmach <n|@n> | history | mac | history | again | …`: the Blake object (new and module singleton) has a history - salted one-shot call, salted '
+           'stream finished / abandoned / refused, refused salted call, call with a bit length, salted initstate alone, several in a row - before and between the MACs; expected = RFC 2104 over the UNSALTED BLAKE-n' if _blake else '')
         + '; distinct lines; non-trivial = a MAC was returned')
 LEVEL_TEXT = ('Parts present: ' + ', '.join(p.__name__.split('.')[-1] for p in PARTS) + '. '
               'Lean 4 theorem hmac_refines, generic in the hash function: Model.Hmac (the hand-written mirror of crysp/hmac.py) equals RFC 2104 for every '
